@@ -70,6 +70,17 @@ def step (d : DState) (line : String) : DState × String :=
       let recs := ((d.feeds.find? (·.1 == d.cur)).map (·.2)).getD []
       let m := (recs.filter fun r => d.patterns.any fun p => Glob.matched p r.key).length
       ({ d with feeds := d.feeds.filter (·.1 != d.cur) }, s!"feedp all={recs.length} matched={m} ok")
+    | ["feedw"] =>
+      -- like feed; every record as it arrives through the bytes, with the digest of the bytes themselves
+      let recs := ((d.feeds.find? (·.1 == d.cur)).map (·.2)).getD []
+      let parts := recs.map fun r =>
+        Feed.render ((Feed.viaWire r).getD r) ++ "@" ++
+          (match Feed.toWire r with
+           | some w => Wire.hex64 (Wire.fnv64 (ProtoWire.encodeOp w))
+           | none => "none")
+      let allHSet := recs.length > 1 && recs.all fun r => r.typ == 10 && r.key == (recs.head?.map (·.key)).getD []
+      let parts := if allHSet then parts.mergeSort (fun a b => decide (a ≤ b)) else parts
+      ({ d with feeds := d.feeds.filter (·.1 != d.cur) }, Wire.compact ("feedw " ++ " ".intercalate parts))
     | ["feed"] =>
       let recs := ((d.feeds.find? (·.1 == d.cur)).map (·.2)).getD []
       let parts := recs.map Feed.render
